@@ -43,6 +43,23 @@ class _ToolsProxy:
                     return tsh.VerifyKey(val)
                 if 'SigningKey' in ann:
                     return SigningKey(val)
+            # a script given as source text where a Script object is also allowed, and the other way round; a certificate as
+            # object or as its packed bytes; a witness as Script or as its bytes
+            if rng.random() < 0.3:
+                try:
+                    if type(val) is str and 'ScriptProtocol' in ann and 'str' in ann:
+                        return _RealT.Script.from_src(val)
+                    if isinstance(val, _RealT.Script) and 'str' in ann and ('Script' in ann):
+                        return val.src
+                    if isinstance(val, _RealT.Certificate) and 'bytes' in ann and 'Certificate' in ann:
+                        return val.pack()
+                    if type(val) is bytes and len(val) == 105 and 'Certificate' in ann and 'bytes' in ann:
+                        c_ = _RealT.Certificate.unpack(val)      # only a certificate that is its own packing (a corrupted one may
+                        return c_ if c_.pack() == val else val   # unpack to field values that cannot be packed again)
+                    if isinstance(val, _RealT.Script) and 'bytes' in ann and 'ScriptProtocol' in ann:
+                        return val.bytes
+                except Exception:
+                    return val
             return val
 
         def call(*a, **kw):
@@ -52,7 +69,7 @@ class _ToolsProxy:
                 return obj(*a, **kw)
             for k in list(b.arguments):
                 v = b.arguments[k]
-                if type(v) in (list, tuple) and 'VerifyKey' in str(sig.parameters[k].annotation):
+                if type(v) in (list, tuple) and any(w_ in str(sig.parameters[k].annotation) for w_ in ('VerifyKey', 'ScriptProtocol', 'Certificate')):
                     b.arguments[k] = type(v)(conv(k, x) for x in v)
                 else:
                     b.arguments[k] = conv(k, v)
